@@ -17,6 +17,8 @@ def build_data(spec):
         X = C.to_storage(X, spec["storage"])      # (csc_explicit0: entries that are zero stay stored)
     elif spec.get("storage") == "float32":
         X = np.asfortranarray(X.astype(np.float32))
+    elif spec.get("storage") == "dense_F":
+        X = np.asfortranarray(X)            # already in the layout and dtype the library wants: no copy is made for it
     return X, y, rng
 
 
